@@ -5,6 +5,7 @@ package main
 // and a tuned fraction is adversarial.
 
 import (
+	"github.com/btcsuite/btcutil/base58"
 	"encoding/hex"
 	"fmt"
 	"sort"
@@ -39,7 +40,7 @@ type Profile struct {
 
 func baseWeights() map[string]int {
 	return map[string]int{"aol": 30, "aolAdv": 8, "did": 18, "didAdv": 8, "pnft": 22, "pnftAdv": 8, "bank": 4, "burn": 3, "vest": 1,
-		"authz": 5, "gov": 1, "boundary": 4, "multiDefect": 2, "hostile": 3, "tamper": 4, "replay": 4, "multi": 5, "hquery": 2, "rollback": 4}
+		"authz": 5, "gov": 1, "crisis": 1, "boundary": 4, "multiDefect": 2, "hostile": 3, "tamper": 4, "replay": 4, "multi": 5, "hquery": 2, "rollback": 4}
 }
 
 func profileFor(prop, tier string, rng *PRNG) *Profile {
@@ -82,7 +83,7 @@ func profileFor(prop, tier string, rng *PRNG) *Profile {
 	case "C04":
 		only("did", "didAdv", "replay")
 		boost("replay", 8)
-		p.PBootstrap = 0.06
+		p.PBootstrap = 0.12
 	case "C05":
 		only("did", "didAdv", "replay")
 		boost("didAdv", 3)
@@ -120,6 +121,7 @@ func profileFor(prop, tier string, rng *PRNG) *Profile {
 		p.PUpgrade = 0.4 // restarts around (executed and skipped) upgrade heights
 		boost("rollback", 3)
 		boost("gov", 8)
+		boost("crisis", 5)
 		boost("vest", 6) // coins that unlock with time at the burn address: what a node does about them must not depend on when it started
 		p.PJump = 0.3
 		p.PCrash = 0.3
@@ -195,7 +197,7 @@ func profileFor(prop, tier string, rng *PRNG) *Profile {
 	if rng.Chance(0.3) {
 		p.PRestart0 = 0
 	}
-	for _, k := range []string{"bank", "burn", "vest", "authz", "hquery", "hostile", "boundary", "multiDefect", "gov"} {
+	for _, k := range []string{"bank", "burn", "vest", "authz", "hquery", "hostile", "boundary", "multiDefect", "gov", "crisis"} {
 		if rng.Chance(0.25) && p.W[k] < 40 {
 			p.W[k] = 0
 		}
@@ -228,6 +230,7 @@ type Gen struct {
 	built       map[int][]sdk.Msg
 	upgraded    bool
 	boundaryPos int
+	vlong       bool // the genesis holds the 65 5xx-record topic
 	hostilePos  int
 	whale       bool
 	sole        bool
@@ -305,6 +308,16 @@ func GenerateScript(seed uint64, prop, tier string, env *Env) *Script {
 		g.seedGenesis(&s.Config.Genesis)
 	}
 	nBlocks := rng.Range(g.p.Blocks[0], g.p.Blocks[1])
+	if g.vlong {
+		// a genesis with a 65 5xx-record topic makes every step expensive (exports, per-transaction state extraction):
+		// a short run of appends that crosses the 2^16 boundary, one bootstrap from an export, nothing else
+		nBlocks = rng.Range(3, 5)
+		q := *g.p
+		q.W = map[string]int{"aol": 12, "aolAdv": 1, "hquery": 1}
+		q.TxPerBlock = [2]int{2, 5}
+		q.PBootstrap, q.PUpgrade, q.PCrash, q.PLag, q.PReconfig = 0.25, 0, 0.1, 0, 0
+		g.p = &q
+	}
 	upgradeAt := -1
 	if rng.Chance(g.p.PUpgrade) {
 		upgradeAt = rng.Range(2, nBlocks-1)
@@ -607,6 +620,8 @@ func (g *Gen) family(f string) {
 		g.famPnft()
 	case "gov":
 		g.famGov()
+	case "crisis":
+		g.famCrisis()
 	case "multiDefect":
 		g.famMultiDefect()
 	case "pnftAdv":
@@ -651,15 +666,36 @@ func (g *Gen) recordSpec(owner, topic, writer, feePayer string) MsgSpec {
 	return m
 }
 
+// punctName: now and then a name with one ASCII character from outside the documented alphabet, in particular the
+// neighbours of its ranges ('/' sits between '-' '.' and '0', ':' after '9', '@' before 'A', '[' after 'Z', '`' before
+// 'a', '{' after 'z')
+func (g *Gen) punctName(name string) string {
+	if g.rng.Chance(0.1) {
+		const punct = "/:@[`{+,;<=>?\\]^|}~!#$%&'()* \""
+		c := punct[g.rng.Intn(len(punct))]
+		if g.rng.Chance(0.35) {
+			c = '/' // the separator of the genesis file's map keys
+		}
+		return "t" + string(c) + "x"
+	}
+	return name
+}
+
 func (g *Gen) famAol() {
 	r := g.rng
 	topics := g.planTopics()
 	switch {
 	case len(topics) == 0 || r.Chance(0.15):
 		o := g.addr(r.Intn(4))
-		g.tx(M("aol.CreateTopic", "topic", topicPool[r.Intn(len(topicPool))], "desc", []string{"", "d", strings.Repeat("D", 5000)}[r.Pick([]int{3, 5, 1})], "owner", o))
+		name := g.punctName(topicPool[r.Intn(len(topicPool))])
+		g.tx(M("aol.CreateTopic", "topic", name, "desc", []string{"", "d", strings.Repeat("D", 5000)}[r.Pick([]int{3, 5, 1})], "owner", o))
 	default:
 		t := topics[r.Intn(len(topics))]
+		for _, c := range topics {
+			if c[1] == "vlong" && r.Chance(0.4) {
+				t = c // the topic that is about to cross the 2^16 boundary gets most of the appends
+			}
+		}
 		ws := g.planWriters(t[0], t[1])
 		switch r.Pick([]int{3, 2, 8}) {
 		case 0:
@@ -667,7 +703,7 @@ func (g *Gen) famAol() {
 			if r.Chance(0.25) { // a writer need not be a 20-byte account: module/ADR-028 addresses are 32 bytes, any 1..255 is legal
 				w = sdk.AccAddress(Keyed(7, "oddwriter", uint64(r.Intn(6))).Bytes([]int{1, 19, 21, 32, 64, 255}[r.Intn(6)])).String()
 			}
-			g.tx(M("aol.AddWriter", "topic", t[1], "owner", t[0], "writer", w, "moniker", []string{"", "mon", "m-._", strings.Repeat("m", 70)}[r.Intn(4)], "desc", []string{"", "writer"}[r.Intn(2)]))
+			g.tx(M("aol.AddWriter", "topic", t[1], "owner", t[0], "writer", w, "moniker", g.punctName([]string{"", "mon", "m-._", strings.Repeat("m", 70)}[r.Intn(4)]), "desc", []string{"", "writer"}[r.Intn(2)]))
 		case 1:
 			if len(ws) > 0 {
 				g.tx(M("aol.DeleteWriter", "topic", t[1], "owner", t[0], "writer", ws[r.Intn(len(ws))]))
@@ -786,7 +822,15 @@ func (g *Gen) didDoc(did string, keys []int, style int) *DocSpec {
 		if r.Chance(0.3) {
 			typ = "Secp256k1VerificationKey2018"
 		}
-		vm := VMSpec{Id: mid, Type: typ, Controller: did, Key: k}
+		if r.Chance(0.06) {
+			// a fragment is any run of 1-128 non-blank characters: also the ones JSON, HTML and escape sequences give a meaning to
+			mid += []string{"\",\"" + did + "#key" + fmt.Sprint((k+1)%NumDidKeys), "\"", "\\", "\\u0041", "<&>", "\",\"", "\"}", ",", "%22", "'"}[r.Intn(10)]
+		}
+		ctl := did
+		if r.Chance(0.15) {
+			ctl = g.env.Dids[(k+3)%NumDidKeys] // a key held for the subject by somebody else (guardian, organisation): nothing ties a method's controller to the DID
+		}
+		vm := VMSpec{Id: mid, Type: typ, Controller: ctl, Key: k}
 		if style == 1 && i == len(keys)-1 && len(keys) > 1 {
 			d.Auth = append(d.Auth, RelSpec{VM: &vm}) // dedicated authentication method
 		} else {
@@ -1009,7 +1053,62 @@ func (g *Gen) famDidAdv() {
 	upd := func(p *ProofSpec, doc *DocSpec) {
 		g.tx(MsgSpec{T: "did.Update", F: map[string]string{"did": did, "from": from}, Doc: doc, Proof: p})
 	}
-	switch r.Intn(22) {
+	switch r.Intn(26) {
+	case 24, 25: // one key held for two subjects by a third party: DIDs A and B both list it under authentication, controller C.
+		// A is deactivated with it; the observed proof, and a proof made over the controller's id, are then presented for B
+		ia, ib := (k+1)%NumDidKeys, (k+2)%NumDidKeys
+		a, b, c := g.env.Dids[ia], g.env.Dids[ib], g.env.Dids[(k+3)%NumDidKeys]
+		if g.plan.Did[a] != nil || g.plan.Did[b] != nil {
+			return
+		}
+		gk := (k + 4) % NumDidKeys
+		mk := func(d string) *DocSpec {
+			vm := VMSpec{Id: d + "#key" + fmt.Sprint(gk), Type: "EcdsaSecp256k1VerificationKey2019", Controller: c, Key: gk}
+			return &DocSpec{Id: d, VMs: []VMSpec{vm}, Auth: []RelSpec{{Ref: vm.Id}}}
+		}
+		for _, d := range []string{a, b} {
+			id := g.tx(MsgSpec{T: "did.Create", F: map[string]string{"did": d, "from": from}, Doc: mk(d), Proof: &ProofSpec{Key: gk, MethodID: d + "#key" + fmt.Sprint(gk), Seq: "0"}})
+			g.didTx = append(g.didTx, didRef{id, d})
+		}
+		ma, mb := a+"#key"+fmt.Sprint(gk), b+"#key"+fmt.Sprint(gk)
+		g.tx(MsgSpec{T: "did.Deactivate", F: map[string]string{"did": b, "from": g.addr(r.Intn(NumAccounts))}, Proof: &ProofSpec{Key: gk, MethodID: mb, Seq: "cur", Content: []string{a, c}[r.Intn(2)]}})
+		id := g.tx(MsgSpec{T: "did.Deactivate", F: map[string]string{"did": a, "from": from}, Proof: &ProofSpec{Key: gk, MethodID: ma, Seq: "cur"}})
+		g.didTx = append(g.didTx, didRef{id, a})
+		g.tx(MsgSpec{T: "did.Deactivate", F: map[string]string{"did": b, "from": g.addr(r.Intn(NumAccounts))}, Proof: &ProofSpec{Key: gk, MethodID: mb, Seq: "cur", Content: []string{a, c}[r.Intn(2)]}})
+	case 22, 23: // an authentication method whose key is well-formed base58 but not a compressed secp256k1 key (65-byte
+		// uncompressed form, 32 bytes, 34 bytes, one byte): listing it is legal, nothing can ever be proven with it
+		raw := base58.Encode(Keyed(uint64(k), "oddkey", uint64(r.Intn(4))).Bytes([]int{65, 32, 34, 1, 64}[r.Intn(5)]))
+		if r.Chance(0.3) {
+			raw = base58.Encode(append([]byte{4}, Keyed(uint64(k), "uncompressed", 0).Bytes(64)...))
+		}
+		bad := func(d string) VMSpec {
+			return VMSpec{Id: d + "#key" + fmt.Sprint(k) + "-odd", Type: []string{"EcdsaSecp256k1VerificationKey2019", "Secp256k1VerificationKey2018"}[r.Intn(2)], Controller: d, Key: -1, RawKey: raw}
+		}
+		if r.Chance(0.4) {
+			fresh := g.env.Dids[other]
+			doc := g.didDoc(fresh, []int{other}, 0)
+			b := bad(fresh)
+			doc.VMs = append([]VMSpec{b}, doc.VMs...)
+			doc.Auth = append([]RelSpec{{Ref: b.Id}}, doc.Auth...)
+			g.tx(MsgSpec{T: "did.Create", F: map[string]string{"did": fresh, "from": from}, Doc: doc, Proof: &ProofSpec{Key: other, MethodID: b.Id, Seq: "0"}})
+		} else {
+			doc := g.didDoc(did, []int{k}, 0)
+			b := bad(did)
+			doc.VMs = append(doc.VMs, b)
+			doc.Auth = append(doc.Auth, RelSpec{Ref: b.Id})
+			id := g.tx(MsgSpec{T: "did.Update", F: map[string]string{"did": did, "from": from}, Doc: doc, Proof: &ProofSpec{Key: k, MethodID: mid, Seq: "cur"}})
+			g.didTx = append(g.didTx, didRef{id, did})
+			// ... and then somebody names that method: with a signature by an unrelated key, with garbage
+			p := &ProofSpec{Key: other, MethodID: b.Id, Seq: "cur"}
+			if r.Chance(0.4) {
+				p.RawSig = hex.EncodeToString(Keyed(uint64(k), "garbage-sig", 1).Bytes(64))
+			}
+			if r.Chance(0.5) {
+				upd(p, g.didDoc(did, []int{other}, 0))
+			} else {
+				g.tx(MsgSpec{T: "did.Deactivate", F: map[string]string{"did": did, "from": from}, Proof: p})
+			}
+		}
 	case 20, 21: // a genuine proof of one document, carried by an update with ANOTHER document (observed in the mempool, or after
 		// some node only simulated the genuine update): whatever a node remembers about proofs it has seen must not matter
 		d1 := g.didDoc(did, []int{k}, 0)
@@ -1414,6 +1513,16 @@ func (g *Gen) moduleAddr() string {
 	return sdk.AccAddress(authtypes.NewModuleAddress(moduleAccountNames[g.rng.Intn(len(moduleAccountNames))])).String()
 }
 
+// famCrisis: anybody may pay the constant fee to have one registered invariant checked inside a transaction. Which
+// invariants a node knows is decided when the process starts - the same on every node, restarted or not.
+func (g *Gen) famCrisis() {
+	r := g.rng
+	routes := [][2]string{{"bank", "total-supply"}, {"bank", "nonnegative-outstanding"}, {"staking", "module-accounts"}, {"staking", "nonnegative-power"},
+		{"distribution", "nonnegative-outstanding"}, {"distribution", "module-account"}, {"gov", "module-account"}, {"aol", "no-such-route"}, {"bank", ""}}
+	rt := routes[r.Intn(len(routes))]
+	g.emit(&TxSpec{Gas: 5_000_000, Msgs: []MsgSpec{M("crisis.VerifyInvariant", "sender", g.addr(r.Intn(NumAccounts)), "module", rt[0], "route", rt[1])}})
+}
+
 func (g *Gen) famBank() {
 	r := g.rng
 	if r.Chance(0.2) {
@@ -1614,6 +1723,15 @@ func (g *Gen) famMulti() {
 	}
 	n := r.Range(2, len(msgs))
 	msgs = msgs[:n]
+	if r.Chance(0.3) {
+		// a sponsored append that is NOT the first message: its named fee payer signs too, but the transaction's first
+		// signer (the owner, from the first message) is the one who pays
+		sponsor := g.addr(4 + r.Intn(4))
+		msgs = append(msgs, g.recordSpec(owner, name, owner, sponsor))
+		if r.Chance(0.4) {
+			msgs = append(msgs, g.recordSpec(owner, name, owner, g.addr(4+r.Intn(4))))
+		}
+	}
 	if r.Chance(0.5) { // make one position fail
 		bad := []MsgSpec{
 			M("aol.AddWriter", "topic", "no-such-topic-xyz", "owner", owner, "writer", owner),
